@@ -771,6 +771,137 @@ fn plan_coq(p: &J) -> Option<String> {
     Some(format!("(mkPlan {} {} {})", tabs, headers, coq_list(&stages, |s| s.clone())))
 }
 
+
+fn stage_coq(st: &J) -> Option<String> {
+    match st["kind"].as_str()? {
+        "Intersect" => Some(format!(
+            "Intersect {} {}",
+            st["var"],
+            coq_list(st["scans"].as_array()?, |s| format!("mkScan {} {} {}", s["atom"], s["col"], cs_list_coq_j(&s["cs"])))
+        )),
+        "FusedIntersect" => Some(format!(
+            "Fused {} {} {} {}",
+            st["cover"]["atom"],
+            cs_list_coq_j(&st["cover"]["cs"]),
+            coq_list(st["bind"].as_array()?, |b| format!("({}, {})", b[0], b[1])),
+            mscans_coq(&st["to_intersect"])?
+        )),
+        _ => None,
+    }
+}
+fn mscans_coq(ti: &J) -> Option<String> {
+    Some(coq_list(ti.as_array()?, |t| {
+        format!("mkMScan {} {} {} {}", t["scan"]["atom"], nums_coq_j(&t["scan"]["cols"]), nums_coq_j(&t["key"]), cs_list_coq_j(&t["scan"]["cs"]))
+    }))
+}
+fn mode_coq(m: &J) -> Option<String> {
+    Some(match m["m"].as_str()? {
+        "Full" => "MoFull".to_string(),
+        "KeyOnly" => "MoKeyOnly".to_string(),
+        "Value" => format!("(MoValue {})", nums_coq_j(&m["vars"])),
+        "Lookup" => format!("(MoLookup {})", nums_coq_j(&m["vars"])),
+        _ => return None,
+    })
+}
+fn stage_atoms_j(st: &J, out: &mut BTreeSet<u64>) {
+    if let Some(a) = st["scans"].as_array() {
+        for s in a {
+            out.extend(s["atom"].as_u64());
+        }
+    }
+    out.extend(st["cover"]["atom"].as_u64());
+    if let Some(a) = st["to_intersect"].as_array() {
+        for t in a {
+            out.extend(t["scan"]["atom"].as_u64());
+        }
+    }
+}
+
+/// Ok(term) for a decomposed plan inside the certified fragment of coq/Query/Decomp.v; Err(reason)
+/// for the shapes that stay uncertified (reported in the evidence, never silently skipped):
+/// the classification is syntactic only, everything semantic is decided by `dplan_ok` in the kernel.
+fn dplan_coq(p: &J, case: &Case) -> Result<String, String> {
+    if p["kind"].as_str() != Some("decomposed") {
+        return Err("not a decomposed plan".into());
+    }
+    let bad = || "malformed dump".to_string();
+    let atoms = p["atoms"].as_array().ok_or_else(bad)?;
+    for (i, a) in atoms.iter().enumerate() {
+        if a["id"].as_u64() != Some(i as u64) {
+            return Err("sparse atom ids".into());
+        }
+    }
+    let blocks = p["blocks"].as_array().ok_or_else(bad)?;
+    let mut touched = BTreeSet::new();
+    let mut bcoq = Vec::new();
+    for b in blocks {
+        let mut sts = Vec::new();
+        for st in b["stages"].as_array().ok_or_else(bad)? {
+            stage_atoms_j(st, &mut touched);
+            if st["kind"] == "FusedIntersectMat" {
+                let m = st["mode"]["m"].as_str().unwrap_or("?");
+                if m != "KeyOnly" {
+                    return Err(format!("bag block reads a materialisation in mode {m}"));
+                }
+                sts.push(format!(
+                    "DMat {} {} {} {}",
+                    st["mat"],
+                    mode_coq(&st["mode"]).ok_or_else(bad)?,
+                    coq_list(st["bind"].as_array().ok_or_else(bad)?, |b| format!("({}, {})", b[0], b[1])),
+                    mscans_coq(&st["to_intersect"]).ok_or_else(bad)?
+                ));
+            } else {
+                sts.push(format!("DPlain ({})", stage_coq(st).ok_or_else(bad)?));
+            }
+        }
+        bcoq.push(format!("mkBSpec {} {} {}", coq_list(&sts, |s| s.clone()), nums_coq_j(&b["msg_vars"]), nums_coq_j(&b["val_vars"])));
+    }
+    if (0..atoms.len() as u64).any(|k| !touched.contains(&k)) {
+        return Err("an atom belongs to no bag (variable-free atom; known API-only finding)".into());
+    }
+    let mut visited = BTreeSet::new();
+    let mut rcoq = Vec::new();
+    for st in p["result"].as_array().ok_or_else(bad)? {
+        if st["kind"] != "FusedIntersectMat" {
+            return Err("result block has a non-materialisation stage".into());
+        }
+        if !st["to_intersect"].as_array().map(|a| a.is_empty()).unwrap_or(false) {
+            return Err("result stage with probes".into());
+        }
+        let m = st["mode"]["m"].as_str().unwrap_or("?");
+        if m != "Full" && m != "Value" {
+            return Err(format!("result stage in mode {m}"));
+        }
+        let j = st["mat"].as_u64().ok_or_else(bad)? as usize;
+        let vals = blocks.get(j).ok_or_else(bad)?["val_vars"].as_array().ok_or_else(bad)?;
+        let bind = st["bind"].as_array().ok_or_else(bad)?;
+        if bind.len() != vals.len() || bind.iter().zip(vals.iter()).enumerate().any(|(i, (b, v))| b[0].as_u64() != Some(i as u64) || b[1] != *v) {
+            return Err("result stage binds only part of the value variables".into());
+        }
+        visited.insert(j);
+        rcoq.push(format!(
+            "mkRStage {} {} {}",
+            j,
+            mode_coq(&st["mode"]).ok_or_else(bad)?,
+            coq_list(bind, |b| format!("({}, {})", b[0], b[1]))
+        ));
+    }
+    for (j, b) in blocks.iter().enumerate() {
+        let n = b["msg_vars"].as_array().map(|a| a.len()).unwrap_or(0) + b["val_vars"].as_array().map(|a| a.len()).unwrap_or(0);
+        if n > 0 && !visited.contains(&j) {
+            return Err("semijoin-only bag (passes variables on but is not scanned by the result block)".into());
+        }
+    }
+    Ok(format!(
+        "(mkDPlan {} {} {} {} {})",
+        case.tables.len(),
+        coq_list(atoms, |a| a["table"].to_string()),
+        coq_list(p["headers"].as_array().ok_or_else(bad)?, |h| format!("mkHeader {} {}", h["atom"], cs_list_coq_j(&h["cs"]))),
+        coq_list(&bcoq, |s| s.clone()),
+        coq_list(&rcoq, |s| s.clone())
+    ))
+}
+
 fn plan_stage_kinds(p: &J, hist: &mut BTreeMap<String, usize>) {
     let mut visit = |stages: &J, pre: &str| {
         if let Some(a) = stages.as_array() {
@@ -1188,6 +1319,9 @@ struct Stats {
     result_size_hist: BTreeMap<String, usize>,
     feature_hist: BTreeMap<String, usize>,
     plans_certified: usize,
+    dplans_certified: usize,
+    dplans_exec: usize,
+    dplan_bags_hist: BTreeMap<String, usize>,
     plans_uncertified: usize,
     uncertified_why: BTreeMap<String, usize>,
     exec_cases: usize,
@@ -1297,18 +1431,37 @@ fn api_case(
                         let small = case.total_rows() <= 40 && want.len() <= 60;
                         if emit_exec && small && out.rows == *want {
                             let rows: Vec<Vec<u32>> = want.iter().cloned().collect();
-                            w.push(format!("CExec {} {} {} {}", q, pc, case.db_coq(), coq_list(&rows, |r| coq_list(r, |v| v.to_string()))));
+                            w.push(format!("CS (CExec {} {} {} {})", q, pc, case.db_coq(), coq_list(&rows, |r| coq_list(r, |v| v.to_string()))));
                             st.exec_cases += 1;
                             st.plans_certified += 1;
                         } else if seen_plans.insert(format!("{q}|{pc}")) {
-                            w.push(format!("CPlan {} {}", q, pc));
+                            w.push(format!("CS (CPlan {} {})", q, pc));
                             st.plans_certified += 1;
                         }
                     }
-                    None => {
-                        st.plans_uncertified += 1;
-                        bump(&mut st.uncertified_why, &format!("{}:{} bags", kind, p["bags"]));
-                    }
+                    None => match dplan_coq(&p, case) {
+                        Ok(dc) if case.small_literals() => {
+                            let small = case.total_rows() <= 40 && want.len() <= 60;
+                            if emit_exec && small && out.rows == *want {
+                                let rows: Vec<Vec<u32>> = want.iter().cloned().collect();
+                                w.push(format!("CDExec {} {} {} {}", q, dc, case.db_coq(), coq_list(&rows, |r| coq_list(r, |v| v.to_string()))));
+                                st.dplans_exec += 1;
+                                st.dplans_certified += 1;
+                                bump(&mut st.dplan_bags_hist, &format!("{} bags", p["bags"]));
+                            } else if seen_plans.insert(format!("{q}|{dc}")) {
+                                w.push(format!("CDPlan {} {}", q, dc));
+                                st.dplans_certified += 1;
+                                bump(&mut st.dplan_bags_hist, &format!("{} bags", p["bags"]));
+                            }
+                        }
+                        Ok(_) => {
+                            st.plans_large_literals += 1;
+                        }
+                        Err(why) => {
+                            st.plans_uncertified += 1;
+                            bump(&mut st.uncertified_why, &format!("{}:{} bags: {}", kind, p["bags"], why));
+                        }
+                    },
                 }
             }
             if out.rows != *want {
@@ -1408,14 +1561,27 @@ fn multi_api(
                             Some(pc) => {
                                 let q = c.query_coq();
                                 if seen_plans.insert(format!("{q}|{pc}")) {
-                                    w.push(format!("CPlan {} {}", q, pc));
+                                    w.push(format!("CS (CPlan {} {})", q, pc));
                                     st.plans_certified += 1;
                                 }
                             }
-                            None => {
-                                st.plans_uncertified += 1;
-                                bump(&mut st.uncertified_why, &format!("{}:{} bags", p["kind"].as_str().unwrap_or("?"), p["bags"]));
-                            }
+                            None => match dplan_coq(&p, c) {
+                                Ok(dc) if c.small_literals() => {
+                                    let q = c.query_coq();
+                                    if seen_plans.insert(format!("{q}|{dc}")) {
+                                        w.push(format!("CDPlan {} {}", q, dc));
+                                        st.dplans_certified += 1;
+                                        bump(&mut st.dplan_bags_hist, &format!("{} bags", p["bags"]));
+                                    }
+                                }
+                                Ok(_) => {
+                                    st.plans_large_literals += 1;
+                                }
+                                Err(why) => {
+                                    st.plans_uncertified += 1;
+                                    bump(&mut st.uncertified_why, &format!("{}:{} bags: {}", p["kind"].as_str().unwrap_or("?"), p["bags"], why));
+                                }
+                            },
                         }
                     }
                 }
@@ -1554,8 +1720,8 @@ fn main() {
 }
 
 pub fn run(o: &Opts) -> i32 {
-    let header = "From Coq Require Import List Arith NArith.\nImport ListNotations.\nRequire Import Verif.Base.Cases Verif.Query.Spec Verif.Query.Stages Verif.Query.PlanOk.\n";
-    let mut w = CaseWriter::new(&o.out, "cases_plans", header, "check_case", 60);
+    let header = "From Coq Require Import List Arith NArith.\nImport ListNotations.\nRequire Import Verif.Base.Cases Verif.Query.Spec Verif.Query.Stages Verif.Query.PlanOk Verif.Query.Decomp.\n";
+    let mut w = CaseWriter::new(&o.out, "cases_plans", header, "check_dcase", 60);
     let mut st = Stats {
         shape_hist: BTreeMap::new(),
         dist_hist: BTreeMap::new(),
@@ -1567,6 +1733,9 @@ pub fn run(o: &Opts) -> i32 {
         result_size_hist: BTreeMap::new(),
         feature_hist: BTreeMap::new(),
         plans_certified: 0,
+        dplans_certified: 0,
+        dplans_exec: 0,
+        dplan_bags_hist: BTreeMap::new(),
         plans_uncertified: 0,
         uncertified_why: BTreeMap::new(),
         exec_cases: 0,
@@ -1866,6 +2035,9 @@ pub fn run(o: &Opts) -> i32 {
             "engine_runs_api": st.engine_runs,
             "engine_runs_text": st.text_runs,
             "plans_certified_by_plan_ok": st.plans_certified,
+            "decomposed_plans_certified_by_dplan_ok": st.dplans_certified,
+            "decomposed_plans_with_exec_check": st.dplans_exec,
+            "decomposed_certified_bags_hist": hist(&st.dplan_bags_hist),
             "plans_with_exec_check": st.exec_cases,
             "plans_uncertified_link_only": st.plans_uncertified,
             "uncertified_breakdown": hist(&st.uncertified_why),
